@@ -63,6 +63,26 @@ def gen(streams, tier, i):
                 ops += hist.bad_op(fr, sh, k, corrupt)[1]
             else:
                 ops += hist.mutation_ops(hr, sh, 1, k, p_bad=p_bad)
+    if doc["version"] == "gfa2" and hr.random() < 0.3:
+        # the items of connected groups edited through their methods: items given as text, as the object another
+        # group holds, as a line of another Gfa; then the other group, or a line, is removed
+        grp = sh.ids(["O", "U"])
+        ids = sh.ids(["S", "E", "G", "O", "U"])
+        for _ in range(hr.randint(1, 3) if grp else 0):
+            ops.append({"op": "grp_edit", "id": hr.choice(grp), "how": hr.choice(["add", "append", "prepend", "prepend", "rm", "rm_first", "rm_last"]),
+                        "item": hr.choice(ids) + hr.choice(["+", "-"]),
+                        "raw": hr.choice([None, "from_group", "from_group", "foreign_line", "str"])})
+            if ops[-1]["raw"] == "from_group" and hr.random() < 0.7:
+                ops.append({"op": "rm_other_group", "id": ops[-1]["id"]})
+            elif ops[-1]["how"] in ("append", "prepend") and hr.random() < 0.5:
+                # the item just added is edited in place (refused, like for the items read from the text)
+                ops.append({"op": "set_field", "id": ops[-1]["id"], "field": "items", "inplace": "line",
+                            "idx": -1 if ops[-1]["how"] == "append" else 0, "value": hr.choice(ids + ["zz9"])})
+            if hr.random() < 0.5:
+                ops.append({"op": "rm", "id": hr.choice(ids), "how": hr.choice(["rm", "disconnect"])})
+        if hr.random() < 0.5:
+            ops.append({"op": "standalone_takes_item", "i": hr.randrange(8), "j": hr.randrange(8),
+                        "how": hr.choice(["append", "prepend"])})
     return {"cfg": {"version": doc["version"], "order": mode, "dropped": len(drop), "p_bad": p_bad,
                     "vlevel": vlevel}, "ops": ops}
 
